@@ -1,11 +1,63 @@
 """Whole-crate call graph (CG): resolved calls, closure construction, function values, unresolved
-calls to crate traits (all impls), static references -> initialisers."""
+calls to crate traits (all impls), static references -> initialisers, and call-backs from generic
+library code into the crate's implementations of foreign traits (conversions, formatting, ...)."""
+import re
+
 from .common import is_bitflags_generated, os_entry_class
+
+FOREIGN_ROOTS = ("std::", "core::", "alloc::", "rustix::", "bitflags::", "thiserror::", "once_cell::", "libc::")
+FMT_ARG = {"new_display": "std::fmt::Display", "new_debug": "std::fmt::Debug", "new_lower_hex": "std::fmt::LowerHex",
+           "new_upper_hex": "std::fmt::UpperHex", "new_octal": "std::fmt::Octal", "new_binary": "std::fmt::Binary"}
+
+
+def base_type(ty):
+    """Nominal head of a type string: strips references, Box/Rc/Arc, lifetimes and generic arguments."""
+    ty = (ty or "").strip()
+    while True:
+        m = re.match(r"^(&(?:'\w+ )?(?:mut )?|\*(?:const|mut) )", ty)
+        if m:
+            ty = ty[m.end():].strip()
+            continue
+        m = re.match(r"^(?:std::boxed::Box|std::rc::Rc|std::sync::Arc)<(.*)>$", ty)
+        if m:
+            ty = m.group(1).strip()
+            continue
+        break
+    return re.sub(r"<.*$", "", ty)
+
+
+def split_generics(ty):
+    """Top-level generic arguments of `Head<A, B<C>, D>` -> [A, B<C>, D]."""
+    i = ty.find("<")
+    if i < 0 or not ty.endswith(">"):
+        return []
+    out, depth, cur = [], 0, ""
+    for ch in ty[i + 1:-1]:
+        if ch in "<([":
+            depth += 1
+        elif ch in ">)]":
+            depth -= 1
+        if ch == "," and depth == 0:
+            out.append(cur.strip())
+            cur = ""
+        else:
+            cur += ch
+    if cur.strip():
+        out.append(cur.strip())
+    return out
 
 
 class CallGraph:
-    def __init__(self, facts, skip=is_bitflags_generated):
+    def __init__(self, facts, skip=is_bitflags_generated, broad_callbacks=False):
         self.facts = facts
+        self.broad = broad_callbacks
+        # crate impls of foreign traits, by nominal self type
+        self.foreign_impls = {}
+        for i in facts.impls:
+            if i["trait"].startswith(FOREIGN_ROOTS):
+                for m in i["methods"]:
+                    self.foreign_impls.setdefault(base_type(i["self_ty"]), []).append((i["trait"], m["impl_item"]))
+        self.crate_types = set(facts.adts)
         self.nodes = {}
         for b in facts.bodies:
             if b.kind in ("fn", "assoc_fn", "closure", "static", "const", "assoc_const", "anon_const") and not skip(b):
@@ -39,6 +91,9 @@ class CallGraph:
                         self._add(p, t.callee, "call", t)
                     else:
                         self.external[p].append(t)
+                        self._callbacks(p, t)
+                elif t.kind == "drop":
+                    self._drop_edges(p, b, t)
                 for o in ops:
                     if o.is_const:
                         c = o.const
@@ -51,6 +106,58 @@ class CallGraph:
                             # function value of a trait method implemented in the crate
                             for im in facts.impl_methods(c["fn"]):
                                 self._add(p, im, "fnvalue", o)
+
+    def _impls(self, ty, trait):
+        return [m for (tr, m) in self.foreign_impls.get(base_type(ty), []) if tr == trait]
+
+    def _callbacks(self, p, t):
+        """A call leaving the crate can come back through the crate's impls of foreign traits for the types
+        it is instantiated with.  The usual conversions are resolved exactly; with broad_callbacks every
+        foreign-trait impl of every crate type mentioned in the instantiation is a possible callee."""
+        f = t.f
+        callee = t.callee
+        full = f.get("full") or ""
+        targets = []
+        if callee == "std::convert::Into::into":
+            targets = self._impls(t.rty, "std::convert::From")
+        elif callee == "std::convert::TryInto::try_into":
+            g = split_generics(t.rty or "")
+            targets = self._impls(g[0] if g else "", "std::convert::TryFrom") + self._impls(f.get("self_ty"), "std::convert::TryInto")
+        elif callee == "std::ops::FromResidual::from_residual":
+            g = split_generics(t.rty or "")
+            if len(g) == 2:
+                src = split_generics((t.argtys or [""])[0])
+                if not (len(src) == 2 and src[1] == g[1]):
+                    targets = self._impls(g[1], "std::convert::From")
+        elif callee == "std::string::ToString::to_string":
+            targets = self._impls(f.get("self_ty"), "std::fmt::Display")
+        elif callee.startswith("core::fmt::rt::Argument::") and callee.rsplit("::", 1)[-1] in FMT_ARG:
+            m = re.search(r"::<(.*)>$", full)
+            if m:
+                targets = self._impls(m.group(1), FMT_ARG[callee.rsplit("::", 1)[-1]])
+        elif f.get("trait", "").startswith("std::fmt::") and f.get("self_ty"):
+            targets = self._impls(f["self_ty"], f["trait"])
+        elif callee == "std::ops::Drop::drop":
+            targets = self._impls(f.get("self_ty"), "std::ops::Drop")
+        for m in targets:
+            self._add(p, m, "callback", t)
+        if self.broad:
+            text = " ".join([full] + list(t.argtys or []) + [t.rty or ""])
+            for ct in self.crate_types:
+                if ct in text and re.search(r"(?<![\w:])" + re.escape(ct) + r"(?!\w)", text):
+                    for (_tr, m) in self.foreign_impls.get(ct, []):
+                        if m not in targets:
+                            self._add(p, m, "callback-broad", t)
+
+    def _drop_edges(self, p, b, t):
+        """Dropping a value runs the Drop impls of the crate types it contains."""
+        ty = t.raw.get("pty")
+        if not ty:
+            return
+        for ct in self.crate_types:
+            if ct in ty:
+                for m in self._impls(ct, "std::ops::Drop"):
+                    self._add(p, m, "callback", t)
 
     def _add(self, a, b, kind, site):
         if b not in self.nodes:
